@@ -6,7 +6,7 @@
    norepeat c (no repeatPolicy step; those belong to C05). *)
 From Coq Require Import List.
 Import ListNotations.
-From BD.Sched Require Import Model Proofs Examples.
+From BD.Sched Require Import Model Proofs ProofsFinal ProofsTerm Examples.
 
 (* In every reachable state of every configuration with maxActiveRuns = k > 0 - that is after every prefix of
    every execution, whatever the DAG, the outcomes and the interleaving - at most k nodes are in state running
@@ -32,6 +32,36 @@ Theorem C15_unbounded : forall (c : cfg) s i, maxActive c = 0 ->
 Proof. exact C15_unbounded_commit. Qed.
 Print Assumptions C15_unbounded.
 
+(* "The limit never prevents a run from completing", in three parts, for every configuration whose dependency
+   relation is well-founded (what NewExecutionGraph guarantees, C14):
+   (1) every label strictly decreases an explicit measure, so EVERY execution is finite, with the bound
+       sum_i (12 * retryLimit_i + 9) + 8 + (n+1) * (number of Signal calls) + 1; *)
+Theorem C15_all_executions_finite : forall c : cfg, donech c = true -> norepeat c ->
+  forall ls s, run c (init c) ls = Some s -> length ls <= bound c.
+Proof. exact all_executions_finite. Qed.
+Print Assumptions C15_all_executions_finite.
+
+Theorem C15_measure_decreases : forall c : cfg, donech c = true -> norepeat c ->
+  forall s l s', Inv c s -> step c s l = Some s' -> measure c s' < measure c s.
+Proof. exact step_measure. Qed.
+Print Assumptions C15_measure_decreases.
+
+(* (2) progress: in every reachable state other than Done the scheduler itself has an enabled step, unless a command
+       or a handler is executing (then the environment's "command ends" is enabled) - the capacity test never
+       deadlocks the loop: it refuses a launch only while some node is running, and a running node has a live worker; *)
+Theorem C15_progress : forall c : cfg, donech c = true -> norepeat c ->
+  forall s, Reach c s -> wf_deps c -> pc s <> LDone ->
+  (exists l s', internal l = true /\ step c s l = Some s') \/
+  (exists i, i < nsteps c /\ ph (nd s i) = PExec) \/ (exists h t, pc s = LHandlers (h :: t) true).
+Proof. exact progress. Qed.
+Print Assumptions C15_progress.
+
+(* (3) hence from every reachable state the run can be driven to Done, and by (1) every maximal execution ends there. *)
+Theorem C15_can_complete : forall c : cfg, donech c = true -> norepeat c ->
+  forall s, Reach c s -> wf_deps c -> exists ls s', run c s ls = Some s' /\ pc s' = LDone.
+Proof. exact can_complete. Qed.
+Print Assumptions C15_can_complete.
+
 (* Non-vacuity: the diamond a -> {b,c} -> d with maxActiveRuns = 2 reaches a state in which two commands execute
    (the bound is attained) and the launch of a further step is refused there. *)
 Example C15_nonvacuous :
@@ -39,6 +69,15 @@ Example C15_nonvacuous :
   exists s, run diamond (init diamond) diamond_two = Some s /\ maxActive diamond = 2 /\
             exec_count diamond s = 2 /\ running_count diamond s = 2 /\ step diamond s (LCommit 3) = None.
 Proof. exact (conj diamond_ok diamond_two_running). Qed.
+
+(* the diamond's dependency relation is well-founded and its complete run (28 labels) is within the bound *)
+Example C15_nonvacuous_termination :
+  wf_deps diamond /\
+  exists s, run diamond (init diamond) diamond_full = Some s /\ pc s = LDone /\ quiet s /\ dry diamond = false /\
+     map (fun i => (st (nd s i), rc (nd s i), att (nd s i), outs (nd s i))) [0; 1; 2; 3] =
+       [(NSuccess, 0, 1, [true]); (NSuccess, 1, 2, [true; false]); (NSuccess, 0, 1, [true]); (NSuccess, 0, 1, [true])] /\
+     length diamond_full <= bound diamond.
+Proof. exact (conj diamond_wf diamond_done). Qed.
 
 (* Why the premise donech = true: with done == nil the faithful model runs two commands with maxActiveRuns = 1. *)
 Theorem C15_without_done_channel_refuted :
